@@ -62,7 +62,12 @@ OptimizationStatus GradientDescent(const ObjectiveFunctionSingle &func, const Gr
         // reference paper associated with this function).
         double lhs(0), rhs(0);
         do {
-            if (status.performed_iterations >= max_iterations) return status;
+            if (status.performed_iterations >= max_iterations) {
+                // The iteration limit was reached in the middle of the line search: the swap at the top of this iteration moved
+                // the last accepted iterate into x0, put it back so that the state holds the best point found so far.
+                std::swap(x0, state.x);
+                return status;
+            }
             lhs = 0;
             rhs = 0;
             for (size_t j=0; j<num_dimensions; j++)
